@@ -642,8 +642,8 @@ class Repo:
         try:
             obs = full_class(self.conn, rc['name'])
         except Exception as e:      # noqa
-            R.violation('%s:getclass-raises-%s' % (ctx, type(e).__name__), **self.info(cls=rc['name'],
-                                                                                   error=repr(e)[:200]))
+            R.violation('getclass-raises-%s' % type(e).__name__, **self.info(cls=rc['name'], step=ctx,
+                                                                             error=repr(e)[:200]))
             return None
         sup = self.model.get(rc['sup']) if rc['sup'] else None
         supdiffs = self.diffs.get(rc['sup'], set()) if rc['sup'] else set()
@@ -654,10 +654,8 @@ class Repo:
             if sig in supdiffs and self.untouched(rc, d):
                 continue        # the superclass already shows this difference and the class copies it verbatim
             vid = classify(d, rc, sup)
-            if not vid.startswith('known:'):
-                vid = ctx + ':' + vid
             case = casemap(d) if casemap else None
-            R.violation(vid, **self.info(elem=d.get('elem'), cls=rc['name'], case=case,
+            R.violation(vid, **self.info(elem=d.get('elem'), cls=rc['name'], case=case, step=ctx,
                                          diff={k: v for k, v in d.items() if k not in ('obs_ts',)}))
         return obs
 
@@ -683,11 +681,11 @@ class Repo:
         try:
             got = sorted(self.conn.EnumerateClassNames(DeepInheritance=True))
         except Exception as e:      # noqa
-            R.violation('%s:enumerateclassnames-raises-%s' % (ctx, type(e).__name__), **self.info())
+            R.violation('enumerateclassnames-raises-%s' % type(e).__name__, **self.info(step=ctx))
             return
         want = sorted(rc['name'] for rc in self.model.values())
         if got != want:
-            R.violation(ctx + ':class-set-differs', **self.info(expected=want, observed=got))
+            R.violation('class-set-differs', **self.info(step=ctx, expected=want, observed=got))
 
 
 # ------------------------------------------------------------------------------------- projection for the flags
@@ -1394,7 +1392,7 @@ def section_elements():
         if not THOROUGH and d >= 4:
             cases = RND.sample(cases, 260 if d == 4 else 200)
         elif THOROUGH and d == 5:
-            cases = RND.sample(cases, 9000)
+            cases = RND.sample(cases, 6000)
         ok, solo = {s: [] for s in SLOTS}, []
         for c in cases:
             v = model_verdict(c, qd0)
@@ -1539,12 +1537,9 @@ def section_special():
 
 
 def main():
-    import sys
-    import time
-    for sec in (section_special, section_hierarchy, section_elements):
-        t = time.time()
-        sec()
-        print(sec.__name__, round(time.time() - t, 1), R.cases, file=sys.stderr)
+    section_special()
+    section_hierarchy()
+    section_elements()
     R.finish()
 
 
